@@ -41,6 +41,10 @@ import OxiddModel.Ffi.DriverMulti
 import OxiddModel.Bcdd.DriverCountS
 import OxiddModel.Zbdd.DriverCountS
 import OxiddModel.Circuit.DriverFindCycle
+import OxiddModel.Ffi.DriverAbi
+import OxiddModel.Zbdd.DriverThreshold
+import OxiddModel.Mtbdd.DriverThreshold
+import OxiddModel.Tdd.DriverThreshold
 
 open OxiddModel
 
@@ -100,7 +104,11 @@ def protos : List (String × Proto) := [
   ("capi-multi", OxiddModel.Ffi.Multi.proto),
   ("countcache-bcdd", OxiddModel.Bcdd.CountS.Driver.proto),
   ("countcache-zbdd", OxiddModel.Zbdd.CountS.Driver.proto),
-  ("findcycle", OxiddModel.Circuit.FindCycleDriver.proto)
+  ("findcycle", OxiddModel.Circuit.FindCycleDriver.proto),
+  ("capi-abi", OxiddModel.Ffi.protoAbi),
+  ("c14tz", OxiddModel.Zbdd.ThresholdDriver.proto),
+  ("c14tm", OxiddModel.Mtbdd.ThresholdDriver.proto),
+  ("c14tt", OxiddModel.Tdd.ThresholdDriver.proto)
 ]
 
 def main (args : List String) : IO UInt32 := do
